@@ -635,7 +635,15 @@ pub fn sessions(sink: &mut Sink, seed: u64, thorough: bool, alphabet: &str, beha
         Call::ModuleColor(COLORS[2].to_vec()), Call::BackgroundColor(COLORS[3].to_vec()), Call::Image("logo.png".into()), Call::Image("other.png".into()),
         Call::ImageBackgroundShape(1), Call::ImageBackgroundColor(COLORS[2].to_vec()), Call::ImageSize(7.0), Call::ImageGap(1.5), Call::ImagePosition(12.0, 13.5),
     ];
-    let qrs = [qr_of(2, seed), qr_of(2, seed + 1), qr_of(5, seed)];
+    // three symbols: two DIFFERENT ones of the same version, level and mask (a renderer may not tell symbols apart by their fields), and a larger one
+    let q0 = qr_of(2, seed);
+    let q1 = {
+        let mut r2 = rng(seed, 24);
+        let m0 = q0.mask.map(|m| m as usize);
+        let spec = BuildSpec { input: payload(&mut r2, 2, 14, true), ecl: Some(2), mode: None, version: Some(2), mask: m0, grp: 0, tag: String::new(), lite: false };
+        match run_build(&spec) { Outcome::Ok(q) if qr_modules(&q) != qr_modules(&q0) => *q, _ => qr_of(2, seed + 1) }
+    };
+    let qrs = [q0, q1, qr_of(5, seed)];
     // segments: calls, then a rendering of qrs[k]
     let mut plans: Vec<Vec<(Vec<Call>, usize)>> = Vec::new();
     for a in &alpha { for b in &alpha {
@@ -643,6 +651,14 @@ pub fn sessions(sink: &mut Sink, seed: u64, thorough: bool, alphabet: &str, beha
             plans.push(vec![(vec![a.clone()], 0), (vec![b.clone()], 0)]);                 // a, render, b, render (same code)
         }
     } }
+    // two symbols of different versions rendered by one builder with margins that give the same overall side (25 + 2 m1 = 37 + 2 m2), with and
+    // without an image, in both orders; and the two same-version symbols one after the other with nothing in between
+    for (m1, m2) in [(6usize, 0usize), (8, 2), (10, 4)] { for with_image in [true, false] {
+        let img = |v: Vec<Call>| -> Vec<Call> { if with_image { let mut x = vec![Call::Image("logo.png".into()), Call::ImageBackgroundShape(m2 % 3)]; x.extend(v); x } else { v } };
+        plans.push(vec![(img(vec![Call::Margin(m1)]), 0), (vec![Call::Margin(m2)], 2), (vec![Call::Margin(m1)], 1)]);
+        plans.push(vec![(img(vec![Call::Margin(m2)]), 2), (vec![Call::Margin(m1)], 0), (vec![], 1), (vec![Call::Margin(m2)], 2)]);
+    } }
+    for sh in 0..6usize { plans.push(vec![(vec![Call::Shape(sh)], 0), (vec![], 1), (vec![], 0), (vec![], 1)]); }
     for k in 0..(if thorough { 12 } else { 3 }) {
         plans.push((0..9).map(|i| (if (i + k) % 3 == 0 { vec![alpha[(i * 7 + k) % alpha.len()].clone()] } else { vec![] }, i % 3)).collect());     // nine renderings of one builder
     }
@@ -660,12 +676,15 @@ pub fn sessions(sink: &mut Sink, seed: u64, thorough: bool, alphabet: &str, beha
             let mut b = SvgBuilder::default();
             let mut sofar: Vec<Call> = Vec::new();
             let mut outs = Vec::new();
+            let mut slot: QRCode = qrs2[0].clone();
             for (calls, k) in &plan2 {
                 for c in calls { c.apply(&mut b); sofar.push(c.clone()); }
                 // the rendering is obtained through a different entry point from one step to the next: to_str; to_file (read back);
                 // to_str after a to_file that RETURNED an error; to_str after another renderer used the same code.  The fresh
                 // builder goes through the same entry point, so a defect of the entry point itself (C19's business) cancels out.
-                let qr = &qrs2[*k];
+                // the symbol is handed over through ONE reused stack slot: consecutive renderings see different symbols at the same address
+                slot = qrs2[*k].clone();
+                let qr = &slot;
                 let via = |bb: &SvgBuilder, tag: &str| -> String {
                     match (pi + outs.len()) % 4 {
                         0 => bb.to_str(qr),
@@ -704,9 +723,11 @@ pub fn sessions(sink: &mut Sink, seed: u64, thorough: bool, alphabet: &str, beha
             let mut b = ImageBuilder::default();
             let mut sofar: Vec<Call> = Vec::new();
             let mut same_all = Vec::new();
+            let mut slot: QRCode = qrs2[0].clone();
             for (calls, k) in &plan {
                 for c in calls { match c { Call::FitWidth(w) => { b.fit_width(*w); } Call::FitHeight(h) => { b.fit_height(*h); } other => other.apply(&mut b) } sofar.push(c.clone()); }
-                let qr = &qrs2[*k];
+                slot = qrs2[*k].clone();
+                let qr = &slot;
                 let via = |bb: &ImageBuilder, tag: &str| -> Vec<u8> {
                     match (pi + same_all.len()) % 4 {
                         0 => { let pm = bb.to_pixmap(qr); let mut v = pm.width().to_le_bytes().to_vec(); v.extend_from_slice(pm.data()); v }
